@@ -8,6 +8,7 @@ from ..treegen import cmake_text
 
 class Prop(BaseProp):
     ID = "C14"
+    ANCHORS = ['cminx:document', 'cminx.rstwriter:Directive.to_text', 'cminx.rstwriter:Directive.option']
     LEVEL = "exploration"
     RULE = ("C13's trees and options plus the quantifier's specials: subdirectories excluded by pattern, auto-"
             "excluded, EMPTY AFTER EXCLUSION (every .cmake file of a subdirectory matches a pattern), nested below "
